@@ -70,6 +70,13 @@ def specs_for(tier, seed):
         if m != "POST":
             for f in ["acme:serverInternal:500", "err:nonjson:500", "drop_before"]:
                 add(kind, n, f, 2, "GET fault")
+    # the nonce fetch itself answered with an error - with a Replay-Nonce header on the error page, as a CA may well send: the call fails
+    for f in ("acme:serverInternal:500:withnonce", "err:nonjson:503:withnonce", "err:jsonarray:404:withnonce", "acme:rateLimited:429:withnonce", "err:empty:502"):
+        for nth in (1, 2):
+            specs.append(dict(tag="C08/s%04d" % len(specs), certs=certs, attempts=1,
+                              endpoints={"A": {"ca": {"nonce_on_get": False}, "script": [{"kind": "newNonce", "nth": nth, "fault": f, "repeat": 1}] +
+                                               ([{"kind": "newOrder", "nth": 1, "fault": "acme:badNonce:400:nononce", "repeat": 1}] if nth == 2 else [])}},
+                              meta={"kind": "newNonce", "nth": nth, "fault": f, "repeat": 1, "why": "nonce fetch answered with an error"}))
     # objects that never reach the awaited status
     never = [("authz never valid", {"authz_polls": 10 ** 6}), ("order never ready", {"ready_polls": 10 ** 6}),
              ("order never valid", {"order_polls": 10 ** 6})]
